@@ -867,8 +867,9 @@ func wsURLDriver(a *Args) {
 				}
 				shim.call("close", fmt.Sprintf(`{"id":%q}`, r.ID), "1")
 			}
-			if wantPath == "" {
-				wantPath = "/"
+			if !strings.HasPrefix(wantPath, "/") {
+				// a relative path is attached to the backend authority with a slash
+				wantPath = "/" + wantPath
 			}
 			if sawPath == "" {
 				sawPath = "/"
